@@ -98,6 +98,11 @@ Proof.
   destruct older as [|o ol]; cbn [par_of recs app map hd_error rid]; auto.
 Qed.
 
+(* a resolver whose merged bodies are documents (not the tombstone body): every built-in policy (none of them
+   merges) and every custom resolver that does not answer null *)
+Definition policy_ok (pol : policy) : Prop :=
+  forall ldel l lb rdel r rb mb, pol ldel l lb rdel r rb = RMerge mb -> mb <> b_tomb.
+
 Section Defs.
   Variable mkdig : option revid -> body -> list N.
   Notation mkid := (mkid mkdig).
@@ -131,11 +136,13 @@ Section Defs.
     li_bpA : body_present A;
     li_bpB : body_present B }.
 
-  (* no user deletes; a PUT whose body is the tombstone body is a delete *)
+  (* no user deletes; a PUT whose body is the tombstone body is a delete, and so is a resolver that answers the
+     tombstone body as its merge result ("return null") *)
   Definition no_delete (o : op) : Prop :=
     match o with
     | Delete _ _ => False
     | Edit _ _ b | Resurrect _ _ b => b <> b_tomb
+    | PullP f _ => policy_ok f
     | _ => True
     end.
 End Defs.
